@@ -60,6 +60,11 @@ namespace RealScalar
 @[simp] theorem eval_neg (a : K) : (K.eval (-a) : ℝ) = - K.eval a := rfl
 @[simp] theorem eval_ofSci (m : Nat) (s : Bool) (e : Nat) : (K.eval (OfScientific.ofScientific m s e : K) : ℝ) = OfScientific.ofScientific m s e := rfl
 
+/-- bridge for the repaired `Rgb → Hsl` saturation (palette 4f36dd5): the denominator written in the code,
+    `inverted_sum = (1 − max) + (1 − min)`, is the textbook `2 − (max + min)` at ℝ (they differ only in rounding).
+    Not `simp`: rewrite with it explicitly after unfolding `rgbToHsl` / `rgbToHslMask` / `hslOfParts`. -/
+theorem invertedSum_eq (a b : ℝ) : (1.0 - a) + (1.0 - b) = 2.0 - (a + b) := by sring
+
 theorem clamp_eq (v lo hi : ℝ) : Scalar.clamp v lo hi = if v < lo then lo else if hi < v then hi else v := rfl
 
 end RealScalar
